@@ -300,6 +300,11 @@ impl Prop for C11Prop {
             if only_name_vs_opcode(&r, &c, &mut any) && any {
                 return Some("printed-program-text-spells-computed-atoms-as-operator-names");
             }
+            // or only the counter digits of a leaked renamed name differ (two compiles, two values
+            // of the fresh-name counter)
+            if r != c && normalize_gensyms(&r) == normalize_gensyms(&c) {
+                return Some("evaluator-com-leaks-let-bound-names");
+            }
             return None;
         }
         let a = sut::consensus_deserialize(&hex::decode(det.get("library_hex")?.as_str()?).ok()?).ok()?;
